@@ -107,7 +107,7 @@ func (t *termer) term(v ssa.Value, d int) string {
 				}
 			}
 		} else if com.IsInvoke() {
-			name = com.Method.Name()
+			name = methodName(com.Method)
 		} else if b, ok := com.Value.(*ssa.Builtin); ok {
 			name = b.Name()
 		} else {
@@ -507,7 +507,7 @@ func ruleSIB3(w *World) []Ob {
 				found = true
 				t := &termer{p: p}
 				got, _ := t.sprintf(c, 0)
-				got = normaliseReport(got)
+				got = normaliseReport(got, recvNames(sf, fn)...)
 				want := `cat(spreadBranch(R,ROOT),"\n",summary(R),"\n")`
 				if spec.summary == "" {
 					// the tinywasm summary carries its own trailing newline
@@ -547,7 +547,7 @@ func ruleSIB3(w *World) []Ob {
 				got, _ = t.sprintf(c, 0)
 			}
 		})
-		got = normaliseReport(got)
+		got = normaliseReport(got, recvNames(fn)...)
 		if got == spec.want {
 			l.ok(spec.name, "summary line", p.Pos(fn.Pos()), got, true, "report")
 		} else {
@@ -767,8 +767,19 @@ func ruleSIB3(w *World) []Ob {
 func normTerm(s string) string { return strings.ReplaceAll(s, " ", "") }
 
 // normaliseReport maps receiver and root variable names to R / ROOT.
-func normaliseReport(s string) string {
-	for _, r := range []string{"cs", "ds"} {
+func recvNames(fns ...*ssa.Function) []string {
+	var out []string
+	for _, f := range fns {
+		f = outermost(f)
+		if f.Signature.Recv() != nil && len(f.Params) > 0 {
+			out = append(out, f.Params[0].Name())
+		}
+	}
+	return out
+}
+
+func normaliseReport(s string, recvs ...string) string {
+	for _, r := range append(recvs, "cs", "ds") {
 		s = strings.ReplaceAll(s, "colorizeSpreaderSimple("+r+")", r)
 		s = strings.ReplaceAll(s, "defaultSpreader("+r+")", r)
 		s = strings.ReplaceAll(s, "("+r+",", "(R,")
@@ -1399,6 +1410,7 @@ func ruleSIB5(w *World) []Ob {
 				why = "isRoot() does not decide a branch"
 			} else {
 				var newStk, push bool
+				recBlocks, pushBlocks := map[*ssa.BasicBlock]bool{}, map[*ssa.BasicBlock]bool{}
 				for b := range blockReach(rootSide, map[*ssa.BasicBlock]bool{scan.Block(): true}) {
 					for _, in := range b.Instrs {
 						switch x := in.(type) {
@@ -1409,11 +1421,13 @@ func ruleSIB5(w *World) []Ob {
 								}
 								if fname(f) == "push" && len(x.Common().Args) == 2 && sameVar(x.Common().Args[1], node) {
 									push = true
+									pushBlocks[b] = true
 								}
 							}
 							if isBuiltinCall(x, "append") {
 								if elems, ok := variadicElems(x.Common().Args[1]); ok && len(elems) == 1 && sameVar(elems[0], node) {
 									appendRoots = true
+									recBlocks[b] = true
 								}
 							}
 						case *ssa.Store:
@@ -1422,7 +1436,21 @@ func ruleSIB5(w *World) []Ob {
 							}
 							if sameVar(x.Val, node) {
 								rootCell0 = x.Addr
+								recBlocks[b] = true
 							}
+						}
+					}
+				}
+				// every way from the root test back to the next line records the root and opens its stack: a root
+				// that is merged into an earlier one, or skipped, on some path is a different forest
+				skipsRecording := false
+				for _, must := range []map[*ssa.BasicBlock]bool{recBlocks, pushBlocks} {
+					if len(must) == 0 {
+						continue
+					}
+					if !must[rootSide] {
+						if reach := blockReach(rootSide, must); reach[scan.Block()] {
+							skipsRecording = true
 						}
 					}
 				}
@@ -1434,6 +1462,8 @@ func ruleSIB5(w *World) []Ob {
 					why = "a root line does not start a fresh stack holding the root"
 				case !appendRoots && rootCell0 == nil && len(rootWeb) == 0:
 					why = "a root line is not recorded (neither appended to the roots nor stored as the current root)"
+				case skipsRecording:
+					why = "on some path a root line goes back to the next line without being recorded as a new root with its own stack (merged into an earlier root, or skipped): this loop then builds a different forest than its siblings"
 				}
 			}
 		}
